@@ -169,6 +169,9 @@ def run(ctx, R, tier):
 
     frame_source(F, R)
     ring_halves(F, R)
+    # 'does not depend on packet sizes or on how far before the requested frame a seek lands'
+    from .c18 import chunk_start
+    chunk_start(F, R, rule='B.C09.frame')
     settings_verbatim(F, R)
     seek_callers(F, R)
     end_rule(F, R)
